@@ -376,5 +376,10 @@ FpxKnownKey(e) ==
       [] e.f = "frb" /\ e.lvl = 16 /\ Len(e.a) = 16 /\ Len(e.c) = 16 /\ e.err = 0 /\ e.code = 0 /\ e.unch
                 /\ CanonAll(e, e.c) /\ e.k >= 1 /\ (e.k % 16 >= 8 \/ BMod(P(e), <<4>>) = <<3>>)
             -> "C10-fp16-frb"
+         \* fp54_frb: the corrections after the Frobenius constants are hard-coded per field size for one
+         \* parameter set (#if FP_PRIME == 256 ...) and do not fit the other primes of that size
+      [] e.f = "frb" /\ e.lvl = 54 /\ Len(e.a) = 54 /\ Len(e.c) = 54 /\ e.err = 0 /\ e.code = 0 /\ e.unch
+                /\ CanonAll(e, e.c) /\ e.k % 54 # 0
+            -> "C10-fp54-frb"
       [] OTHER -> ""
 =============================================================================
